@@ -1401,6 +1401,10 @@ func (h *RequestHeader) del(key []byte) {
 
 // setSpecialHeader handles special headers and return true when a header is processed.
 func (h *ResponseHeader) setSpecialHeader(key, value []byte) bool {
+	// Blanks between the name and the colon are dropped by parseHeaders (and
+	// by any recipient that strips them, see RFC 9112 section 5.1), so such a
+	// key must not bypass the headers managed here, e.g. "Transfer-Encoding ".
+	key = trimTrailingSpace(key)
 	if len(key) == 0 {
 		return false
 	}
@@ -1468,6 +1472,8 @@ func (h *header) setNonSpecial(key, value []byte) {
 
 // setSpecialHeader handles special headers and return true when a header is processed.
 func (h *RequestHeader) setSpecialHeader(key, value []byte) bool {
+	// See ResponseHeader.setSpecialHeader.
+	key = trimTrailingSpace(key)
 	if len(key) == 0 || h.disableSpecialHeader {
 		return false
 	}
